@@ -673,8 +673,36 @@ def dropped_fill_lengths(F, bodies=None):
             if not (r == "usize" or r.startswith("std::result::Result<usize,")):
                 continue
             if not _ok_payload_read(b, s, t, r == "usize"):
+                if _exactly_sized_destination(b, s, c):
+                    continue
                 out.append((b, s, callee_name(c) if c else "<indirect>"))
     return out
+
+
+def _exactly_sized_destination(b, s, c):
+    """the one case where the produced length carries no information: raw snappy decoding into a buffer that was
+    resized to `snap::raw::decompress_len(input)` of the very input being decoded — the decoder fills it exactly
+    (or fails)"""
+    if not (c and callee_name(c).endswith("snap::raw::Decoder::decompress")):
+        return False
+    a = b.arg_exprs(s)
+    if len(a) < 3:
+        return False
+    src, dst = a[1], a[2]
+    vec = None
+    for x in dst.walk():
+        if x.k in ("arg", "var", "field") and vec is None:
+            vec = x
+    for s2, c2, t2 in b.calls():
+        if callee_name(c2).endswith("Vec::<T, A>::resize") and b.dominates(s2, s):
+            a2 = b.arg_exprs(s2)
+            n = a2[1].strip()
+            pl = unwrap_payload(n, "Ok") or n
+            pl = pl.strip()
+            if pl.k == "call" and pl.x["path"].endswith("snap::raw::decompress_len") and pl.a and pl.a[0].ident() == src.ident() \
+                    and vec is not None and any(y.ident() == vec.ident() for y in a2[0].walk()):
+                return True
+    return False
 
 
 def _erase(ty):
